@@ -50,22 +50,47 @@ theorem genEnterNext_spec (g : GenObj) (s s4 : Vm) (h : genEnterNext g s = some 
   have := pushCtx_some hp; subst this
   simp [restoreCtx, pushTryFrame, markerState]
 
-/-- back to the caller after a `yield` -/
-theorem genLeave_spec (s s5 : Vm) (c : Ctx) (tf : TryFrame)
-    (hcs : s5.callStack = s.callStack ++ [saveCtx s, c]) (hts : s5.tryStack = tf :: s.tryStack)
-    (his : s5.iterStack = s.iterStack) (hrs : s5.refStack = s.refStack) (hsb : s5.sb = s.sp + 1) :
-    Same s (genLeave s5) ∧ (genLeave s5).interrupted = s5.interrupted := by
+theorem drop_len_append {α : Type} (e l : List α) : (e ++ l).drop ((e ++ l).length - l.length) = l := by
+  have : (e ++ l).length - l.length = e.length := by simp
+  rw [this]; simp
+
+/-- a state in which the activation may be suspended: call stack and registers as at the resume, the other stacks
+only extended (the live records of the constructs the `yield` sits in) -/
+theorem suspendable {s4 s5 : Vm} (h : Ext false s4 s5) (hcs : s5.callStack = s4.callStack) :
+    s5.regs = s4.regs ∧ (∃ e, s5.tryStack = e ++ s4.tryStack) ∧ (∃ e, s5.iterStack = s4.iterStack ++ e) ∧
+    (∃ e, s5.refStack = s4.refStack ++ e) := by
+  obtain ⟨e1, he1, hr1⟩ := h.cs
+  have : e1 = [] := by
+    have := he1.symm.trans hcs
+    simpa using this
+  subst this
+  obtain ⟨e4, he4, _⟩ := h.ts
+  exact ⟨by simpa [levelRegs] using hr1, ⟨e4, he4⟩, h.is, h.rs⟩
+
+/-- back to the caller after a `yield` (vm.suspend cuts the three stacks back to the lengths stored by enterNext) -/
+theorem genLeave_spec (s s5 : Vm) (c : Ctx) (tf : TryFrame) (e1 : List TryFrame) (e2 : List IterItem) (e3 : List Nat)
+    (hcs : s5.callStack = s.callStack ++ [saveCtx s, c]) (hts : s5.tryStack = e1 ++ tf :: s.tryStack)
+    (his : s5.iterStack = s.iterStack ++ e2) (hrs : s5.refStack = s.refStack ++ e3) (hsb : s5.sb = s.sp + 1) :
+    Same s (genLeave (tf :: s.tryStack).length s.iterStack.length s.refStack.length s5) ∧
+    (genLeave (tf :: s.tryStack).length s.iterStack.length s.refStack.length s5).interrupted = s5.interrupted := by
   unfold genLeave
-  have e1 : (popTryFrame { s5 with sp := s5.sb - 1, callStack := s5.callStack.dropLast }).callStack
+  have d1 : s5.tryStack.drop (s5.tryStack.length - (tf :: s.tryStack).length) = tf :: s.tryStack := by
+    rw [hts]; exact drop_len_append e1 (tf :: s.tryStack)
+  have e1' : (popTryFrame { s5 with
+      sp := s5.sb - 1
+      callStack := s5.callStack.dropLast
+      tryStack := s5.tryStack.drop (s5.tryStack.length - (tf :: s.tryStack).length)
+      iterStack := s5.iterStack.take s.iterStack.length
+      refStack := s5.refStack.take s.refStack.length }).callStack
       = s.callStack ++ [saveCtx s] := by
     simp [popTryFrame, hcs, List.dropLast_append_cons]
-  rw [popCtx_snoc _ _ _ e1]
+  rw [popCtx_snoc _ _ _ e1']
   refine ⟨⟨?_, ?_, ?_, ?_, rfl, ?_, ?_, ?_⟩, ?_⟩
   · simp [restoreCtx, popTryFrame, hsb]
   · simp [restoreCtx, saveCtx, Vm.regs]
   · simp [restoreCtx, saveCtx]
   · simp [restoreCtx, saveCtx]
-  · simp [restoreCtx, popTryFrame, hts]
+  · simp only [restoreCtx, popTryFrame]; rw [d1]; rfl
   · simp [restoreCtx, popTryFrame, his]
   · simp [restoreCtx, popTryFrame, hrs]
   · simp [restoreCtx, popTryFrame]
@@ -120,34 +145,11 @@ theorem genNew_good (slot n : Nat) (f : FnInfo) (body : Beh) (s : Vm) : Good s (
       · rw [popCtx_snoc _ s.callStack (saveCtx { s with sp := s.sp + 2 + n }) (by simp [popTryFrame, pushTryFrame])]
         simp [restoreCtx, popTryFrame, pushTryFrame]
 
-theorem genReturn_good (slot : Nat) (s : Vm) : Good s (genReturn slot s) := by
-  unfold genReturn
-  have same : Good s (.normal, s) := ⟨by simpa [GoodCtl] using Same.refl s, fun _ => rfl⟩
-  have thr : Good s (.thrown, s) := ⟨by simpa [GoodCtl] using (Same.refl s).toExt true, fun _ => rfl⟩
-  cases hg : getGen s slot with
-  | none => exact same
-  | some g =>
-    simp only
-    cases g.state with
-    | completed => exact same
-    | executing => exact thr
-    | suspended =>
-      simp only
-      split
-      · exact ⟨by simpa [GoodCtl] using (Same.refl s).withGen slot _, fun _ => rfl⟩
-      · cases he : genEnterNext g s with
-        | none => exact ⟨by simpa [GoodCtl] using ((Same.refl s).withGen slot _).toExt false, by simp [Quiet]⟩
-        | some s4 =>
-          obtain ⟨a1, a2, a3, a4, a5, a6, _⟩ := genEnterNext_spec g s s4 he
-          obtain ⟨tfm, htfm, _⟩ := pushTryFrame_frameOf tryPanicMarker (-1) (markerState s)
-          obtain ⟨hs, hq⟩ := genLeave_spec s s4 ctxHalt tfm a1 (by rw [a2, htfm]; simp [markerState]) a3 a4 a6
-          exact ⟨by simpa [GoodCtl] using hs.withGen slot _, fun _ => by simp only [setGen_intr]; rw [hq, a5]⟩
-
 /-- the marker of enterNext restores to `markerState s`; the caller's context is the last entry of its call stack -/
 theorem unwind_gen {runF : RunF} (HA : HypA runF) (o : Outcome) (c : Bool) (hc : o = .thrown → c = true)
     (g : GenObj) (s s4 s5 : Vm) (he : genEnterNext g s = some s4) (hext : Ext c s4 s5) (r : Res)
     (hr : r = unwindAtMarker runF o s5) :
-    r.1 ≠ .stuck ∧ r.1 ≠ .normal ∧ (r.1 = .thrown → o = .thrown) ∧ (∀ e, r.1 ≠ .exit e) ∧
+    r.1 ≠ .stuck ∧ r.1 ≠ .normal ∧ (r.1 = .thrown → o = .thrown) ∧ ((∀ e, r.1 ≠ .exit e) ∧ r.1 ≠ .yielded) ∧
     Ext false s r.2 ∧ Same s (popCtx r.2) ∧ (popCtx r.2).interrupted = r.2.interrupted ∧
     (r.1 ≠ .fatal → r.2.interrupted = s5.interrupted) := by
   obtain ⟨a1, a2, a3, a4, a5, a6, m1, m2, m3, m4, m5, m6⟩ := genEnterNext_spec g s s4 he
@@ -157,7 +159,7 @@ theorem unwind_gen {runF : RunF} (HA : HypA runF) (o : Outcome) (c : Bool) (hc :
      ⟨[], by simp [a3, pushTryFrame, markerState]⟩, ⟨[], by simp [a4, pushTryFrame, markerState]⟩, ⟨[], by simp [a2]⟩⟩
   have := unwind_after_body HA o c hc (markerState s) s4 s5 hIm hB a2 hext r hr
   obtain ⟨b1, b2, b3, b4, b5, b6, b7, b8, b9, b10, b11, b12⟩ := this
-  have hne : ∀ e, r.1 ≠ .exit e := by rw [hr]; exact unwind_no_exit runF o s5
+  have hne : (∀ e, r.1 ≠ .exit e) ∧ r.1 ≠ .yielded := by rw [hr]; exact unwind_no_exit runF o s5
   have hcs : r.2.callStack = s.callStack ++ [saveCtx s] := by rw [b8]; simp [markerState]
   refine ⟨b1, b2, b3, hne, ?_, ?_, ?_, b12⟩
   · exact ⟨⟨[saveCtx s], hcs, by simp [levelRegs, Ctx.regs, saveCtx, Vm.regs]⟩, ⟨[], by simp [b10, m5]⟩,
@@ -168,120 +170,102 @@ theorem unwind_gen {runF : RunF} (HA : HypA runF) (o : Outcome) (c : Bool) (hc :
       by simp [restoreCtx, b11, m6]⟩
   · rw [popCtx_snoc _ _ _ hcs]; simp [restoreCtx]
 
-theorem genThrow_good {runF : RunF} (HA : HypA runF) (slot : Nat) (s : Vm) : Good s (genThrow runF slot s) := by
-  unfold genThrow
+theorem genResume_good {runF : RunF} (HG : HypG runF) (HA : HypA runF) (slot : Nat) (what : Option Beh)
+    (isThrow : Bool) (s : Vm) : Good s (genResume runF slot what isThrow s) := by
+  unfold genResume
+  have same : Good s (.normal, s) := ⟨by simpa [GoodCtl] using Same.refl s, fun _ => rfl⟩
   have thr : Good s (.thrown, s) := ⟨by simpa [GoodCtl] using (Same.refl s).toExt true, fun _ => rfl⟩
+  have either : Good s (if isThrow then (Outcome.thrown, s) else (Outcome.normal, s)) := by
+    cases isThrow <;> simp [same, thr]
   cases hg : getGen s slot with
-  | none => exact thr
+  | none => exact either
   | some g =>
     simp only
     cases g.state with
-    | completed => exact thr
+    | completed => exact either
     | executing => exact thr
     | suspended =>
       simp only
       split
-      · exact ⟨by simpa [GoodCtl] using ((Same.refl s).withGen slot _).toExt true, fun _ => rfl⟩
+      · cases isThrow with
+        | true => exact ⟨by simpa [GoodCtl] using ((Same.refl s).withGen slot _).toExt true, fun _ => rfl⟩
+        | false => exact ⟨by simpa [GoodCtl] using (Same.refl s).withGen slot _, fun _ => rfl⟩
       · cases he : genEnterNext g s with
         | none => exact ⟨by simpa [GoodCtl] using ((Same.refl s).withGen slot _).toExt false, by simp [Quiet]⟩
-        | some s4 =>
-          obtain ⟨_, _, _, _, a5, _⟩ := genEnterNext_spec g s s4 he
-          obtain ⟨b1, b2, b3, b4, _, b6, b7, b8⟩ :=
-            unwind_gen HA .thrown true (fun _ => rfl) g s s4 s4 he ((Same.refl s4).toExt true) _ rfl
+        | some s4' =>
+          obtain ⟨a1, a2, a3, a4, a5, a6, _⟩ := genEnterNext_spec g s s4' he
           simp only
-          generalize unwindAtMarker runF .thrown s4 = u at b1 b2 b3 b4 b6 b7 b8
-          obtain ⟨o, s5⟩ := u
-          refine ⟨?_, fun hn => by simp only [setGen_intr]; rw [b7, b8 hn, a5]⟩
-          unfold GoodCtl
-          cases o with
-          | normal => exact absurd rfl b2
-          | stuck => exact absurd rfl b1
-          | exit e => exact absurd rfl (b4 e)
-          | thrown => simpa using (b6.withGen slot _).toExt true
-          | fatal => simpa using (b6.withGen slot _).toExt false
-
-theorem genNext_good {runF : RunF} (HG : HypG runF) (HA : HypA runF) (slot : Nat) (s : Vm) :
-    Good s (genNext runF slot s) := by
-  unfold genNext
-  have same : Good s (.normal, s) := ⟨by simpa [GoodCtl] using Same.refl s, fun _ => rfl⟩
-  have thr : Good s (.thrown, s) := ⟨by simpa [GoodCtl] using (Same.refl s).toExt true, fun _ => rfl⟩
-  cases hg : getGen s slot with
-  | none => exact same
-  | some g =>
-    simp only
-    cases g.state with
-    | completed => exact same
-    | executing => exact thr
-    | suspended =>
-      simp only
-      cases he : genEnterNext g s with
-      | none => exact ⟨by simpa [GoodCtl] using ((Same.refl s).withGen slot _).toExt false, by simp [Quiet]⟩
-      | some s4' =>
-        obtain ⟨a1, a2, a3, a4, a5, a6, _⟩ := genEnterNext_spec g s s4' he
-        simp only
-        generalize hs4 : setGen s4' slot { g with state := .executing, started := true } = s4
-        have hI4 : Inv s4 := inv_of_ne (by rw [← hs4]; simp [a1])
-        have q4 : s4.interrupted = s.interrupted := by rw [← hs4]; simpa using a5
-        obtain ⟨tfm, htfm, _⟩ := pushTryFrame_frameOf tryPanicMarker (-1) (markerState s)
-        have ts4 : s4'.tryStack = tfm :: s.tryStack := by rw [a2, htfm]; simp [markerState]
-        -- the two normal ways back
-        have back : ∀ s5 : Vm, Same s4 s5 →
-            (Same s (genLeave s5) ∧ (genLeave s5).interrupted = s5.interrupted) ∧
-            (Same s (genFinish s5) ∧ (genFinish s5).interrupted = s5.interrupted) := by
-          intro s5 h5
-          have hr5 := h5.regs
-          simp only [Vm.regs, Regs.mk.injEq] at hr5
-          have c5 : s5.callStack = s.callStack ++ [saveCtx s, ctxHalt] := by rw [h5.cs, ← hs4]; simpa using a1
-          have t5 : s5.tryStack = tfm :: s.tryStack := by rw [h5.ts, ← hs4]; simpa using ts4
-          have i5 : s5.iterStack = s.iterStack := by rw [h5.is, ← hs4]; simpa using a3
-          have r5 : s5.refStack = s.refStack := by rw [h5.rs, ← hs4]; simpa using a4
-          have b5 : s5.sb = s.sp + 1 := by rw [hr5.2.1, ← hs4]; simpa using a6
-          exact ⟨genLeave_spec s s5 _ _ c5 t5 i5 r5 b5, genFinish_spec s s5 _ _ c5 t5 i5 r5 b5⟩
-        have unwind : ∀ (o : Outcome) (c : Bool) (s5 : Vm), (o = .thrown → c = true) → Ext c s4 s5 →
-            (o ≠ .fatal → s5.interrupted = s4.interrupted) →
-            Good s (match (unwindAtMarker runF o s5).1 with
-              | .thrown => (Outcome.thrown, setGen (popCtx (unwindAtMarker runF o s5).2) slot (genDone g))
-              | _ => unwindAtMarker runF o s5) := by
-          intro o c s5 hcc hext hq5
-          have hext' : Ext c s4' s5 := by rw [← hs4] at hext; exact Ext.dropGen _ _ hext
-          obtain ⟨b1, b2, b3, b4, b5, b6, b7, b8⟩ := unwind_gen HA o c hcc g s s4' s5 he hext' _ rfl
-          generalize unwindAtMarker runF o s5 = u at b1 b2 b3 b4 b5 b6 b7 b8
-          obtain ⟨ou, su⟩ := u
-          cases ou with
-          | normal => exact absurd rfl b2
-          | stuck => exact absurd rfl b1
-          | exit e => exact absurd rfl (b4 e)
-          | thrown =>
-            have ho : o = .thrown := b3 rfl
-            exact ⟨by simpa [GoodCtl] using (b6.withGen slot _).toExt true,
-              fun _ => by simp only [setGen_intr]; rw [b7, b8 (by simp), hq5 (by simp [ho]), q4]⟩
-          | fatal => exact ⟨by simpa [GoodCtl] using b5, by simp [Quiet]⟩
-        by_cases hint : s4.interrupted = true
-        · simp only [hint, if_true]
-          exact unwind .fatal false s4 (by simp) ((Same.refl s4).toExt false) (by simp)
-        · simp only [hint, Bool.false_eq_true, if_false]
-          have hgood := HG (firstSeg g.rest) s4 hI4
-          generalize runF (firstSeg g.rest) s4 = r at hgood
-          obtain ⟨o, s5⟩ := r
-          obtain ⟨hc, hq⟩ := hgood
-          cases o with
-          | normal =>
-            simp only [GoodCtl] at hc
-            obtain ⟨⟨l1, l2⟩, ⟨f1, f2⟩⟩ := back s5 hc
-            have hq5 : s5.interrupted = s.interrupted := (hq (by simp)).trans q4
-            simp only
-            split
-            · exact ⟨by simpa [GoodCtl] using l1.withGen slot _, fun _ => by simp only [setGen_intr]; rw [l2, hq5]⟩
-            · exact ⟨by simpa [GoodCtl] using f1.withGen slot _, fun _ => by simp only [setGen_intr]; rw [f2, hq5]⟩
-          | exit e =>
-            simp only [GoodCtl] at hc
-            obtain ⟨_, ⟨f1, f2⟩⟩ := back s5 hc
-            have hq5 : s5.interrupted = s.interrupted := (hq (by simp)).trans q4
-            exact ⟨by simpa [GoodCtl] using f1.withGen slot _, fun _ => by simp only [setGen_intr]; rw [f2, hq5]⟩
-          | stuck => simp [GoodCtl] at hc
-          | thrown => exact unwind .thrown true s5 (fun _ => rfl) hc hq
-          | fatal => exact unwind .fatal false s5 (by simp) hc (by simp)
-
+          generalize hs4 : setGen s4' slot { g with state := .executing, started := true } = s4
+          have hI4 : Inv s4 := inv_of_ne (by rw [← hs4]; simp [a1])
+          have q4 : s4.interrupted = s.interrupted := by rw [← hs4]; simpa using a5
+          obtain ⟨tfm, htfm, _⟩ := pushTryFrame_frameOf tryPanicMarker (-1) (markerState s)
+          have ts4 : s4'.tryStack = tfm :: s.tryStack := by rw [a2, htfm]; simp [markerState]
+          have c4 : s4.callStack = s.callStack ++ [saveCtx s, ctxHalt] := by rw [← hs4]; simpa using a1
+          have t4 : s4.tryStack = tfm :: s.tryStack := by rw [← hs4]; simpa using ts4
+          have i4 : s4.iterStack = s.iterStack := by rw [← hs4]; simpa using a3
+          have r4 : s4.refStack = s.refStack := by rw [← hs4]; simpa using a4
+          have b4 : s4.sb = s.sp + 1 := by rw [← hs4]; simpa using a6
+          -- the normal way back (the body returned)
+          have fin : ∀ s5 : Vm, Same s4 s5 → Same s (genFinish s5) ∧ (genFinish s5).interrupted = s5.interrupted := by
+            intro s5 h5
+            have hr5 := h5.regs
+            simp only [Vm.regs, Regs.mk.injEq] at hr5
+            exact genFinish_spec s s5 _ tfm (by rw [h5.cs, c4]) (by rw [h5.ts, t4]) (by rw [h5.is, i4]) (by rw [h5.rs, r4])
+              (by rw [hr5.2.1, b4])
+          have unwind : ∀ (o : Outcome) (c : Bool) (s5 : Vm), (o = .thrown → c = true) → Ext c s4 s5 →
+              (o ≠ .fatal → s5.interrupted = s4.interrupted) →
+              Good s (match (unwindAtMarker runF o s5).1 with
+                | .thrown => (Outcome.thrown, setGen (popCtx (unwindAtMarker runF o s5).2) slot (genDone g))
+                | _ => unwindAtMarker runF o s5) := by
+            intro o c s5 hcc hext hq5
+            have hext' : Ext c s4' s5 := by rw [← hs4] at hext; exact Ext.dropGen _ _ hext
+            obtain ⟨b1, b2, b3, b4', b5, b6, b7, b8⟩ := unwind_gen HA o c hcc g s s4' s5 he hext' _ rfl
+            generalize unwindAtMarker runF o s5 = u at b1 b2 b3 b4' b5 b6 b7 b8
+            obtain ⟨ou, su⟩ := u
+            cases ou with
+            | normal => exact absurd rfl b2
+            | stuck => exact absurd rfl b1
+            | exit e => exact absurd rfl (b4'.1 e)
+            | yielded => exact absurd rfl b4'.2
+            | thrown =>
+              have ho : o = .thrown := b3 rfl
+              exact ⟨by simpa [GoodCtl] using (b6.withGen slot _).toExt true,
+                fun _ => by simp only [setGen_intr]; rw [b7, b8 (by simp), hq5 (by simp [ho]), q4]⟩
+            | fatal => exact ⟨by simpa [GoodCtl] using b5, by simp [Quiet]⟩
+          by_cases hint : s4.interrupted = true
+          · simp only [hint, if_true]
+            exact unwind .fatal false s4 (by simp) ((Same.refl s4).toExt false) (by simp)
+          · simp only [hint, Bool.false_eq_true, if_false]
+            generalize resumeBody what g.rest = body
+            have hgood := HG body s4 hI4
+            rcases hrr : runF body s4 with ⟨o, s5⟩
+            rw [hrr] at hgood
+            obtain ⟨hc, hq⟩ := hgood
+            cases o with
+            | yielded =>
+              simp only [GoodCtl] at hc
+              obtain ⟨y1, ⟨e1, y2⟩, ⟨e2, y3⟩, ⟨e3, y4⟩⟩ := suspendable hc.1 hc.2
+              have hr5 := y1
+              simp only [Vm.regs, Regs.mk.injEq] at hr5
+              have hq5 : s5.interrupted = s.interrupted := (hq (by simp)).trans q4
+              have hl := genLeave_spec s s5 ctxHalt tfm e1 e2 e3 (by rw [hc.2, c4]) (by rw [y2, t4]) (by rw [y3, i4])
+                (by rw [y4, r4]) (by rw [hr5.2.1, b4])
+              have hlen : s4.tryStack.length = (tfm :: s.tryStack).length := by rw [t4]
+              simp only [hlen, i4, r4]
+              exact ⟨by simpa [GoodCtl] using hl.1.withGen slot _, fun _ => by simp only [setGen_intr]; rw [hl.2, hq5]⟩
+            | normal =>
+              simp only [GoodCtl] at hc
+              obtain ⟨f1, f2⟩ := fin s5 hc
+              have hq5 : s5.interrupted = s.interrupted := (hq (by simp)).trans q4
+              exact ⟨by simpa [GoodCtl] using f1.withGen slot _, fun _ => by simp only [setGen_intr]; rw [f2, hq5]⟩
+            | exit e =>
+              simp only [GoodCtl] at hc
+              obtain ⟨f1, f2⟩ := fin s5 hc
+              have hq5 : s5.interrupted = s.interrupted := (hq (by simp)).trans q4
+              exact ⟨by simpa [GoodCtl] using f1.withGen slot _, fun _ => by simp only [setGen_intr]; rw [f2, hq5]⟩
+            | stuck => simp [GoodCtl] at hc
+            | thrown => exact unwind .thrown true s5 (fun _ => rfl) hc hq
+            | fatal => exact unwind .fatal false s5 (by simp) hc (by simp)
 
 /-! ### async functions -/
 
@@ -296,69 +280,71 @@ theorem asyncResume_good {runF : RunF} (HG : HypG runF) (HA : HypA runF) (id : N
     cases he : genEnterNext g s with
     | none => exact ⟨by simpa [GoodCtl] using (Same.refl s).toExt false, by simp [Quiet]⟩
     | some s4 =>
-      obtain ⟨a1, a2, a3, a4, a5, a6, _⟩ := genEnterNext_spec g s s4 he
+      obtain ⟨c4, a2, i4, r4, q4, b4, _⟩ := genEnterNext_spec g s s4 he
       simp only
-      have hI4 : Inv s4 := inv_of_ne (by simp [a1])
+      have hI4 : Inv s4 := inv_of_ne (by simp [c4])
       obtain ⟨tfm, htfm, _⟩ := pushTryFrame_frameOf tryPanicMarker (-1) (markerState s)
-      have ts4 : s4.tryStack = tfm :: s.tryStack := by rw [a2, htfm]; simp [markerState]
-      have back : ∀ s5 : Vm, Same s4 s5 →
-          (Same s (genLeave s5) ∧ (genLeave s5).interrupted = s5.interrupted) ∧
-          (Same s (genFinish s5) ∧ (genFinish s5).interrupted = s5.interrupted) := by
+      have t4 : s4.tryStack = tfm :: s.tryStack := by rw [a2, htfm]; simp [markerState]
+      have fin : ∀ s5 : Vm, Same s4 s5 → Same s (genFinish s5) ∧ (genFinish s5).interrupted = s5.interrupted := by
         intro s5 h5
         have hr5 := h5.regs
         simp only [Vm.regs, Regs.mk.injEq] at hr5
-        have c5 : s5.callStack = s.callStack ++ [saveCtx s, ctxHalt] := by rw [h5.cs]; exact a1
-        have t5 : s5.tryStack = tfm :: s.tryStack := by rw [h5.ts]; exact ts4
-        have i5 : s5.iterStack = s.iterStack := by rw [h5.is]; exact a3
-        have r5 : s5.refStack = s.refStack := by rw [h5.rs]; exact a4
-        have b5 : s5.sb = s.sp + 1 := by rw [hr5.2.1]; exact a6
-        exact ⟨genLeave_spec s s5 _ _ c5 t5 i5 r5 b5, genFinish_spec s s5 _ _ c5 t5 i5 r5 b5⟩
+        exact genFinish_spec s s5 _ tfm (by rw [h5.cs, c4]) (by rw [h5.ts, t4]) (by rw [h5.is, i4]) (by rw [h5.rs, r4])
+          (by rw [hr5.2.1, b4])
       have unwind : ∀ (o : Outcome) (c : Bool) (s5 : Vm), (o = .thrown → c = true) → Ext c s4 s5 →
           (o ≠ .fatal → s5.interrupted = s4.interrupted) →
           Good s (match (unwindAtMarker runF o s5).1 with
             | .thrown => (Outcome.normal, setGen (popCtx (unwindAtMarker runF o s5).2) id (genDone g))
             | _ => unwindAtMarker runF o s5) := by
         intro o c s5 hcc hext hq5
-        obtain ⟨b1, b2, b3, b4, b5, b6, b7, b8⟩ := unwind_gen HA o c hcc g s s4 s5 he hext _ rfl
-        generalize unwindAtMarker runF o s5 = u at b1 b2 b3 b4 b5 b6 b7 b8
+        obtain ⟨b1, b2, b3, b4', b5, b6, b7, b8⟩ := unwind_gen HA o c hcc g s s4 s5 he hext _ rfl
+        generalize unwindAtMarker runF o s5 = u at b1 b2 b3 b4' b5 b6 b7 b8
         obtain ⟨ou, su⟩ := u
         cases ou with
         | normal => exact absurd rfl b2
         | stuck => exact absurd rfl b1
-        | exit e => exact absurd rfl (b4 e)
+        | exit e => exact absurd rfl (b4'.1 e)
+        | yielded => exact absurd rfl b4'.2
         | thrown =>
           have ho : o = .thrown := b3 rfl
           exact ⟨by simpa [GoodCtl] using b6.withGen id _,
-            fun _ => by simp only [setGen_intr]; rw [b7, b8 (by simp), hq5 (by simp [ho]), a5]⟩
+            fun _ => by simp only [setGen_intr]; rw [b7, b8 (by simp), hq5 (by simp [ho]), q4]⟩
         | fatal => exact ⟨by simpa [GoodCtl] using b5, by simp [Quiet]⟩
       by_cases hint : s4.interrupted = true
       · simp only [hint, if_true]
         exact unwind .fatal false s4 (by simp) ((Same.refl s4).toExt false) (by simp)
       · simp only [hint, Bool.false_eq_true, if_false]
-        have hgood := HG (firstSeg g.rest) s4 hI4
-        generalize runF (firstSeg g.rest) s4 = r at hgood
-        obtain ⟨o, s5⟩ := r
+        have hgood := HG g.rest s4 hI4
+        rcases hrr : runF g.rest s4 with ⟨o, s5⟩
+        rw [hrr] at hgood
         obtain ⟨hc, hq⟩ := hgood
         cases o with
+        | yielded =>
+          simp only [GoodCtl] at hc
+          obtain ⟨y1, ⟨e1, y2⟩, ⟨e2, y3⟩, ⟨e3, y4⟩⟩ := suspendable hc.1 hc.2
+          have hr5 := y1
+          simp only [Vm.regs, Regs.mk.injEq] at hr5
+          have hq5 : s5.interrupted = s.interrupted := (hq (by simp)).trans q4
+          have hl := genLeave_spec s s5 ctxHalt tfm e1 e2 e3 (by rw [hc.2, c4]) (by rw [y2, t4]) (by rw [y3, i4])
+            (by rw [y4, r4]) (by rw [hr5.2.1, b4])
+          have hlen : s4.tryStack.length = (tfm :: s.tryStack).length := by rw [t4]
+          simp only [hlen, i4, r4]
+          have hs := hl.1.withGen id { rest := s5.resid, ctx := saveCtx s5, stackLen := (s5.sp - s5.sb + 1).toNat, state := .suspended, started := true }
+          exact ⟨by simp only [GoodCtl]; exact ⟨hs.sp, hs.regs, hs.stash, hs.privEnv, hs.cs, hs.ts, hs.is, hs.rs⟩,
+            fun _ => by simp only [setGen_intr]; rw [hl.2, hq5]⟩
         | normal =>
           simp only [GoodCtl] at hc
-          obtain ⟨⟨l1, l2⟩, ⟨f1, f2⟩⟩ := back s5 hc
-          have hq5 : s5.interrupted = s.interrupted := (hq (by simp)).trans a5
-          simp only
-          split
-          · have hs := l1.withGen id { rest := ‹Beh›, ctx := saveCtx s5, stackLen := (s5.sp - s5.sb + 1).toNat, state := .suspended, started := true }
-            exact ⟨by simp only [GoodCtl]; exact ⟨hs.sp, hs.regs, hs.stash, hs.privEnv, hs.cs, hs.ts, hs.is, hs.rs⟩,
-              fun _ => by simp only [setGen_intr]; rw [l2, hq5]⟩
-          · exact ⟨by simpa [GoodCtl] using f1.withGen id _, fun _ => by simp only [setGen_intr]; rw [f2, hq5]⟩
+          obtain ⟨f1, f2⟩ := fin s5 hc
+          have hq5 : s5.interrupted = s.interrupted := (hq (by simp)).trans q4
+          exact ⟨by simpa [GoodCtl] using f1.withGen id _, fun _ => by simp only [setGen_intr]; rw [f2, hq5]⟩
         | exit e =>
           simp only [GoodCtl] at hc
-          obtain ⟨_, ⟨f1, f2⟩⟩ := back s5 hc
-          have hq5 : s5.interrupted = s.interrupted := (hq (by simp)).trans a5
+          obtain ⟨f1, f2⟩ := fin s5 hc
+          have hq5 : s5.interrupted = s.interrupted := (hq (by simp)).trans q4
           exact ⟨by simpa [GoodCtl] using f1.withGen id _, fun _ => by simp only [setGen_intr]; rw [f2, hq5]⟩
         | stuck => simp [GoodCtl] at hc
         | thrown => exact unwind .thrown true s5 (fun _ => rfl) hc hq
         | fatal => exact unwind .fatal false s5 (by simp) hc (by simp)
-
 
 /-- the state in which enter()'s marker is pushed, with the registers the callee's saved context gives back -/
 def enterState (n : Nat) (s : Vm) : Vm :=
@@ -451,7 +437,8 @@ theorem asyncNew_good {runF : RunF} (HG : HypG runF) (HA : HypA runF) (n : Nat) 
         cases ou with
         | normal => exact absurd rfl b2
         | stuck => exact absurd rfl b1
-        | exit e => exact absurd rfl (hne e)
+        | exit e => exact absurd rfl (hne.1 e)
+        | yielded => exact absurd rfl hne.2
         | thrown =>
           have ho : o = .thrown := b3 rfl
           obtain ⟨z1, z2⟩ := actBack_spec n s su csu tsu isu rsu
@@ -475,29 +462,43 @@ theorem asyncNew_good {runF : RunF} (HG : HypG runF) (HA : HypA runF) (n : Nat) 
       · simp only [hint, if_true]
         exact unwind .fatal false s5 (by simp) ((Same.refl s5).toExt false) (by simp)
       · simp only [hint, Bool.false_eq_true, if_false]
-        have hgood := HG (firstSeg body) s5 hI5
-        rcases hrr : runF (firstSeg body) s5 with ⟨o, s6⟩
+        have hgood := HG body s5 hI5
+        rcases hrr : runF body s5 with ⟨o, s6⟩
         rw [hrr] at hgood
         obtain ⟨hc, hq⟩ := hgood
         cases o with
+        | yielded =>
+          -- await: suspend (cut the stacks back to the lengths at entry), queue the continuation, pop marker and caller
+          simp only [GoodCtl] at hc
+          obtain ⟨y1, ⟨e1, y2⟩, ⟨e2, y3⟩, ⟨e3, y4⟩⟩ := suspendable hc.1 hc.2
+          have hq6 : s6.interrupted = s.interrupted := ((hq (by simp)).trans q5).trans q3
+          have d1 : s6.tryStack.drop (s6.tryStack.length - s5.tryStack.length) = s5.tryStack := by
+            rw [y2]; exact drop_len_append e1 s5.tryStack
+          apply (fun (h : Same s _ ∧ _) => (⟨by simpa [GoodCtl] using h.1, fun _ => h.2⟩ : Good s (Outcome.normal, _)))
+          have key := actBack_spec n s
+            (popTryFrame { (setGen ({ s6 with
+                sp := s6.sb - 1
+                callStack := s6.callStack.dropLast
+                tryStack := s6.tryStack.drop (s6.tryStack.length - s5.tryStack.length)
+                iterStack := s6.iterStack.take s5.iterStack.length
+                refStack := s6.refStack.take s5.refStack.length } : Vm) (1000 + s6.gens.length)
+                { rest := s6.resid, ctx := saveCtx s6, stackLen := (s6.sp - s6.sb + 1).toNat, state := .suspended, started := true }) with
+              jobQueue := (setGen ({ s6 with
+                sp := s6.sb - 1
+                callStack := s6.callStack.dropLast
+                tryStack := s6.tryStack.drop (s6.tryStack.length - s5.tryStack.length)
+                iterStack := s6.iterStack.take s5.iterStack.length
+                refStack := s6.refStack.take s5.refStack.length } : Vm) (1000 + s6.gens.length)
+                { rest := s6.resid, ctx := saveCtx s6, stackLen := (s6.sp - s6.sb + 1).toNat, state := .suspended, started := true }).jobQueue
+                ++ [.asyncResume (1000 + s6.gens.length)] })
+            (by simp [popTryFrame, hc.2, cs5, cs3, List.dropLast_append_cons])
+            (by simp only [popTryFrame, setGen_ts]; rw [d1, ts5, ts3']; rfl)
+            (by simp [popTryFrame, y3, is5, is3])
+            (by simp [popTryFrame, y4, rs5, rs3])
+          exact ⟨key.1, by rw [key.2]; simpa [popTryFrame] using hq6⟩
         | normal =>
           simp only [GoodCtl] at hc
-          have hq6 : s6.interrupted = s.interrupted := ((hq (by simp)).trans q5).trans q3
-          simp only
-          split
-          · -- await: suspend, queue the continuation, pop marker and caller
-            apply (fun (h : Same s _ ∧ _) => (⟨by simpa [GoodCtl] using h.1, fun _ => h.2⟩ : Good s (Outcome.normal, _)))
-            refine ⟨?_, ?_⟩
-            · refine (actBack_spec n s _ ?_ ?_ ?_ ?_).1
-              · simp [popTryFrame, hc.cs, cs5, cs3, List.dropLast_append_cons]
-              · simp [popTryFrame, hc.ts, ts5, ts3']
-              · simp [popTryFrame, hc.is, is5, is3]
-              · simp [popTryFrame, hc.rs, rs5, rs3]
-            · rw [(actBack_spec n s _ (by simp [popTryFrame, hc.cs, cs5, cs3, List.dropLast_append_cons])
-                (by simp [popTryFrame, hc.ts, ts5, ts3']) (by simp [popTryFrame, hc.is, is5, is3])
-                (by simp [popTryFrame, hc.rs, rs5, rs3])).2]
-              simpa [popTryFrame] using hq6
-          · exact retBack s6 hc hq6
+          exact retBack s6 hc (((hq (by simp)).trans q5).trans q3)
         | exit e =>
           simp only [GoodCtl] at hc
           exact retBack s6 hc (((hq (by simp)).trans q5).trans q3)
